@@ -6,13 +6,16 @@ def configs(tier):
     q = [
         ('5 ops over new/add/opt', dict(length=5, ops=('new', 'add', 'opt'))),
         ('4 ops over new/add/opt/rm/get', dict(length=4, ops=('new', 'add', 'opt', 'rm', 'get'))),
-        ('3 ops over all 9 operation kinds', dict(length=3)),
+        ('3 ops over all 11 operation kinds', dict(length=3)),
+        ('4 ops over new/add/opt/dupadd (re-adding a positioned clone)', dict(length=4, ops=('new', 'add', 'opt', 'dupadd'))),
+        ('5 ops over new/add/rm/readd/opt', dict(length=5, ops=('new', 'add', 'rm', 'readd', 'opt'), render=False)),
         ('5 ops over new/nest/add/opt/rm (subtree preserved)', dict(length=5, ops=('new', 'nest', 'add', 'opt', 'rm'), render=False)),
     ]
     if tier == 'quick': return q
     return q + [
         ('6 ops over new/add/opt/rm', dict(length=6, ops=('new', 'add', 'opt', 'rm'))),
-        ('4 ops over all 9 operation kinds', dict(length=4)),
+        ('4 ops over all 11 operation kinds', dict(length=4)),
+        ('7 ops over new/add/rm/readd/opt', dict(length=7, ops=('new', 'add', 'rm', 'readd', 'opt'), render=False)),
         ('7 ops over new/add/opt', dict(length=7, ops=('new', 'add', 'opt'), render=False)),
         ('6 ops over new/nest/add/opt/rm/get', dict(length=6, ops=('new', 'nest', 'add', 'opt', 'rm', 'get'), render=False)),
     ]
@@ -20,7 +23,7 @@ def configs(tier):
 def main():
     c = Check('C16')
     c.assumptions = [
-        'operations: create (Element::new, optionally with one attribute), add_unique_child, set_child_optional, remove_child, get_child(_mut), merge_attr (one attribute, symbolic tag), set_multiple, text = Some(..), nested add (child gets a grandchild before being added)',
+        'operations: create (Element::new, optionally with one attribute), add_unique_child, set_child_optional, remove_child, get_child(_mut), re-adding a removed child, adding a clone of an existing child, merge_attr (one attribute, symbolic tag), set_multiple, text = Some(..), nested add (child gets a grandchild before being added)',
         'names from {a, b, c} (the operations only compare names): every equality pattern of <= length names is covered',
         'one parent with a staged child and grandchildren (two levels); deeper trees are the same operations applied one level down',
         'rendering with the quick-xml preset; identifier legality for adversarial names is C04',
